@@ -66,7 +66,7 @@ impl Servers {
         let mut worst = Duration::ZERO;
         for _ in 0..3 {
             let t = Instant::now();
-            let running = start(&this, Xport::Tls, ClientPlan { requests: 0, followup: false, idle_before: Duration::ZERO });
+            let running = start(&this, Xport::Tls, ClientPlan { requests: 0, followup: false, idle_before: Duration::ZERO, collect_after_all_sent: false });
             if let Some(mut peer) = running.peer {
                 _ = peer.send_chunk(server_hello().as_bytes());
                 _ = wait_until(Duration::from_secs(10), || running.log.lock().unwrap().established.is_some());
@@ -89,6 +89,9 @@ pub struct ClientPlan {
     pub followup: bool,
     /// wait this long before issuing the requests (idle session)
     pub idle_before: Duration,
+    /// send every request first, then await the replies one after the other in the same task
+    /// (instead of one awaiting task per request)
+    pub collect_after_all_sent: bool,
 }
 
 async fn drive<T>(connect: impl std::future::Future<Output = Result<Session<T>, netconf::Error>>, plan: ClientPlan, log: Arc<Mutex<ClientLog>>)
@@ -114,7 +117,27 @@ where
     }
     log.lock().unwrap().results = vec![None; plan.requests];
     let mut tasks = Vec::new();
-    for k in 0..plan.requests {
+    if plan.collect_after_all_sent {
+        let mut futs = Vec::new();
+        for k in 0..plan.requests {
+            match session.rpc::<Get, _>(|b| b.finish()).await {
+                Ok(fut) => {
+                    log.lock().unwrap().requests_sent += 1;
+                    futs.push((k, fut));
+                }
+                Err(e) => {
+                    let mut l = log.lock().unwrap();
+                    l.send_errors.push(format!("{e:?}"));
+                    l.results[k] = Some((Err(format!("send failed: {e:?}")), Instant::now()));
+                }
+            }
+        }
+        for (k, fut) in futs {
+            let r = fut.await.map(|o| o.to_string()).map_err(|e| format!("{e:?}"));
+            log.lock().unwrap().results[k] = Some((r, Instant::now()));
+        }
+    }
+    for k in 0..if plan.collect_after_all_sent { 0 } else { plan.requests } {
         match session.rpc::<Get, _>(|b| b.finish()).await {
             Ok(fut) => {
                 log.lock().unwrap().requests_sent += 1;
@@ -228,6 +251,18 @@ fn server_hello() -> String {
     hello_msg(&[CAP_BASE_1_0, CAP_JUNOS], "42")
 }
 
+/// a server hello of exactly `size` bytes (delimiter included): a padding capability takes up the slack
+fn sized_hello(size: usize) -> String {
+    let base = hello_msg(&[CAP_BASE_1_0, CAP_JUNOS, "urn:example:pad:"], "42").len();
+    let cap = format!("urn:example:pad:{}", "p".repeat(size.saturating_sub(base)));
+    hello_msg(&[CAP_BASE_1_0, CAP_JUNOS, &cap], "42")
+}
+
+/// padding that makes the first reply exactly `size` bytes long (delimiter included)
+fn pad_for_reply_size(size: usize) -> usize {
+    size.saturating_sub(big_reply(1, 1).len() - 1).max(1)
+}
+
 /// cut `stream` at the given offsets (strictly inside) into chunks
 fn cut(stream: &[u8], cuts: &[usize]) -> Vec<Vec<u8>> {
     let mut out = Vec::new();
@@ -251,6 +286,8 @@ pub struct SegCase {
     pub reply_cuts: Vec<usize>,
     /// padding (bytes) inside the data of the first reply (0 = short replies)
     pub big: usize,
+    /// Some(n): the server hello is exactly n bytes long, delimiter included
+    pub hello_size: Option<usize>,
     pub desc: String,
 }
 
@@ -266,12 +303,12 @@ const PROMPT: Duration = Duration::from_millis(1500);
 /// One segmentation case: hello delivered in chunks, then the pipelined replies in chunks.
 pub fn run_seg(servers: &Servers, case: &SegCase) -> SegOutcome {
     let mut problems = Vec::new();
-    let running = start(servers, case.xport, ClientPlan { requests: case.replies, followup: false, idle_before: Duration::ZERO });
+    let running = start(servers, case.xport, ClientPlan { requests: case.replies, followup: false, idle_before: Duration::ZERO, collect_after_all_sent: false });
     let Some(mut peer) = running.peer else {
         return SegOutcome { problems: vec![("machinery:no-peer".into(), "the client never reached the fake peer".into())], reads_verified: false, observed_reads: vec![] };
     };
     let log = running.log;
-    let hello = server_hello();
+    let hello = case.hello_size.map_or_else(server_hello, sized_hello);
     let chunks = cut(hello.as_bytes(), &case.hello_cuts);
     let mut reads_verified = true;
     let mut expected_reads = 0usize;
@@ -354,6 +391,90 @@ pub fn run_seg(servers: &Servers, case: &SegCase) -> SegOutcome {
     SegOutcome { problems, reads_verified, observed_reads }
 }
 
+/// Deep pipeline on a real transport: the client sends `n` requests before it collects any reply
+/// (as the agent does for its loads), the peer answers every request as soon as it has read it.
+/// Every request must reach the peer and every caller must get its own reply, without further traffic.
+pub fn run_deep(servers: &Servers, xport: Xport, n: usize) -> Vec<(String, String)> {
+    let mut problems = Vec::new();
+    let running = start(servers, xport, ClientPlan { requests: n, followup: true, idle_before: Duration::ZERO, collect_after_all_sent: true });
+    let Some(mut peer) = running.peer else {
+        return vec![("machinery:no-peer".into(), "the client never reached the fake peer".into())];
+    };
+    let log = running.log;
+    _ = peer.send_chunk(server_hello().as_bytes());
+    if !wait_until(servers.prompt.max(Duration::from_secs(3)), || log.lock().unwrap().established.is_some()) || !matches!(log.lock().unwrap().established, Some(Ok(()))) {
+        problems.push(("establishment-failed".into(), format!("session establishment failed: {:?}", log.lock().unwrap().established)));
+    } else {
+        let patience = servers.prompt.max(Duration::from_secs(2));
+        let mut answered = 0usize;
+        for k in 1..=n + 1 {
+            if peer.read_message(patience).is_none() {
+                problems.push(("pipelined-request-never-sent".into(), format!("request {k} of {} never reached the peer although requests 1..{} were answered promptly ({} sent according to the client)", n + 1, k - 1, log.lock().unwrap().requests_sent)));
+                break;
+            }
+            _ = peer.send_chunk(reply_for(k).as_bytes());
+            answered = k;
+        }
+        if answered == n + 1 && !wait_until(patience * 2, || log.lock().unwrap().done) {
+            problems.push(("replies-not-delivered".into(), "every request was answered but the client never finished collecting the replies".into()));
+        }
+        let l = log.lock().unwrap();
+        for k in 0..n {
+            match l.results.get(k).and_then(|r| r.as_ref()) {
+                Some((Ok(v), _)) if *v == tag_for(k + 1) => {}
+                Some((other, _)) => problems.push(("wrong-or-failed-delivery".into(), format!("request {} of {n} resolved to {}, expected {:?}", k + 1, format!("{other:?}").chars().take(200).collect::<String>(), tag_for(k + 1)))),
+                None => {
+                    problems.push(("reply-never-delivered".into(), format!("request {} of {n} never resolved", k + 1)));
+                    break;
+                }
+            }
+        }
+        if answered == n + 1 && !matches!(&l.extra, Some(Ok(v)) if *v == tag_for(n + 1)) {
+            problems.push(("session-unusable-afterwards".into(), format!("the follow-up request resolved to {:?}", l.extra)));
+        }
+    }
+    peer.close(CloseKind::Eof);
+    running.task.abort();
+    problems
+}
+
+/// `run_deep` for every transport and every size; violations are filed under property `id`.
+pub fn run_deep_all(report: &mut Report, id: &str, servers: &mut Servers) -> u64 {
+    let mut n_cases = 0u64;
+    for xport in [Xport::Tls, Xport::Local, Xport::Ssh] {
+        let mut failures = 0;
+        for n in deep_sizes(report.tier.thorough()) {
+            if failures >= 2 {
+                report.observe(&format!("deeper pipelines on {xport:?} skipped after two failing sizes"));
+                break;
+            }
+            n_cases += 1;
+            let problems = run_deep(servers, xport, n);
+            if !problems.is_empty() {
+                failures += 1;
+                servers.reset_runtime();
+            }
+            for (class, what) in problems {
+                if class.starts_with("machinery") {
+                    panic!("machinery failure in deep pipeline {xport:?} n={n}: {what}");
+                }
+                report.violation(&format!("{id}:deep-pipeline:{class}:{xport:?}"), &format!("{xport:?}, {n} requests sent before any reply is collected, every request answered at once: {what}"), json!({"transport": format!("{xport:?}"), "pipelined_requests": n}));
+            }
+        }
+    }
+    report.set("deep_pipeline_cases_on_real_transports", n_cases);
+    n_cases
+}
+
+pub fn deep_sizes(thorough: bool) -> Vec<usize> {
+    if let Ok(v) = std::env::var("VERIF_DEEP_SIZES") {
+        return v.split(',').filter_map(|x| x.parse().ok()).collect();
+    }
+    // 33 / 66: one more than the SSH transport's queue capacities (32) and their sum; 300 and above: the client is
+    // certain to still be sending when the 33rd reply has come back
+    if thorough { vec![31, 32, 33, 40, 63, 64, 65, 66, 100, 129, 300, 1000] } else { vec![33, 66, 300] }
+}
+
 fn delimiter_zone(end: usize) -> Vec<usize> {
     // cut positions from 2 bytes before the delimiter to its last interior position
     let start = end - MARKER.len();
@@ -371,7 +492,7 @@ pub fn seg_cases(thorough: bool) -> Vec<SegCase> {
         // hello: every single cut (thorough) or the delimiter zone + a few others
         let hello_singles: Vec<usize> = if thorough { (1..hlen).collect() } else { let mut v = delimiter_zone(hlen); v.extend([1, hlen / 2]); v };
         for c in hello_singles {
-            out.push(SegCase { xport, hello_cuts: vec![c], replies: 1, reply_cuts: vec![], big: 0, desc: format!("hello cut at {c} of {hlen}") });
+            out.push(SegCase { xport, hello_cuts: vec![c], replies: 1, reply_cuts: vec![], big: 0, hello_size: None, desc: format!("hello cut at {c} of {hlen}") });
         }
         // hello: all subsets of the delimiter zone
         let zone = delimiter_zone(hlen);
@@ -381,29 +502,29 @@ pub fn seg_cases(thorough: bool) -> Vec<SegCase> {
                 continue;
             }
             let cuts: Vec<usize> = (0..zn).filter(|i| mask & (1 << i) != 0).map(|i| zone[zone.len() - zn + i]).collect();
-            out.push(SegCase { xport, hello_cuts: cuts.clone(), replies: 0, reply_cuts: vec![], big: 0, desc: format!("hello delimiter zone cuts {cuts:?}") });
+            out.push(SegCase { xport, hello_cuts: cuts.clone(), replies: 0, reply_cuts: vec![], big: 0, hello_size: None, desc: format!("hello delimiter zone cuts {cuts:?}") });
         }
         // replies: two pipelined messages, every single cut
         let total2 = r1 + r2;
         let singles: Vec<usize> = if thorough { (1..total2).collect() } else { let mut v = delimiter_zone(r1); v.extend(delimiter_zone(total2)); v.extend([1, r1, r1 + 1, r1 + r2 / 2]); v };
         for c in singles {
-            out.push(SegCase { xport, hello_cuts: vec![], replies: 2, reply_cuts: vec![c], big: 0, desc: format!("two replies, cut at {c} (first ends at {r1}, total {total2})") });
+            out.push(SegCase { xport, hello_cuts: vec![], replies: 2, reply_cuts: vec![c], big: 0, hello_size: None, desc: format!("two replies, cut at {c} (first ends at {r1}, total {total2})") });
         }
         // groupings of whole messages: 3 replies in 1, 2 or 3 units
         let total3 = r1 + r2 + r3;
         for cuts in [vec![], vec![r1], vec![r1 + r2], vec![r1, r1 + r2]] {
-            out.push(SegCase { xport, hello_cuts: vec![], replies: 3, reply_cuts: cuts.clone(), big: 0, desc: format!("three replies grouped by cuts {cuts:?} (of {total3})") });
+            out.push(SegCase { xport, hello_cuts: vec![], replies: 3, reply_cuts: cuts.clone(), big: 0, hello_size: None, desc: format!("three replies grouped by cuts {cuts:?} (of {total3})") });
         }
         // pairs of cuts both inside the first reply's delimiter zone, and one in each zone
         let z1 = delimiter_zone(r1);
         let z2 = delimiter_zone(total2);
         for (i, a) in z1.iter().enumerate() {
             for b in z1.iter().skip(i + 1) {
-                out.push(SegCase { xport, hello_cuts: vec![], replies: 2, reply_cuts: vec![*a, *b], big: 0, desc: format!("two replies, cuts {a},{b} inside the first delimiter zone") });
+                out.push(SegCase { xport, hello_cuts: vec![], replies: 2, reply_cuts: vec![*a, *b], big: 0, hello_size: None, desc: format!("two replies, cuts {a},{b} inside the first delimiter zone") });
             }
             if thorough || i % 2 == 0 {
                 for b in &z2 {
-                    out.push(SegCase { xport, hello_cuts: vec![], replies: 2, reply_cuts: vec![*a, *b], big: 0, desc: format!("two replies, cuts {a} and {b} (one per delimiter zone)") });
+                    out.push(SegCase { xport, hello_cuts: vec![], replies: 2, reply_cuts: vec![*a, *b], big: 0, hello_size: None, desc: format!("two replies, cuts {a} and {b} (one per delimiter zone)") });
                 }
             }
         }
@@ -412,17 +533,34 @@ pub fn seg_cases(thorough: bool) -> Vec<SegCase> {
         for pad in [70_000usize, 200_000] {
             let b1 = big_reply(1, pad).len();
             for cuts in [vec![b1 - 2000, b1 + r2 / 2], vec![b1 - 3, b1 + 1], vec![b1 - 2000], vec![b1 / 2, b1 + 7], vec![b1]] {
-                out.push(SegCase { xport, hello_cuts: vec![], replies: 2, reply_cuts: cuts.clone(), big: pad, desc: format!("reply of {b1} bytes followed by a short one, cuts {cuts:?}") });
+                out.push(SegCase { xport, hello_cuts: vec![], replies: 2, reply_cuts: cuts.clone(), big: pad, hello_size: None, desc: format!("reply of {b1} bytes followed by a short one, cuts {cuts:?}") });
             }
             if thorough {
                 for c in delimiter_zone(b1) {
-                    out.push(SegCase { xport, hello_cuts: vec![], replies: 2, reply_cuts: vec![b1 - 5000, c], big: pad, desc: format!("large reply ({b1} bytes), cut at {c} in its delimiter zone") });
+                    out.push(SegCase { xport, hello_cuts: vec![], replies: 2, reply_cuts: vec![b1 - 5000, c], big: pad, hello_size: None, desc: format!("large reply ({b1} bytes), cut at {c} in its delimiter zone") });
+                }
+            }
+        }
+        // message sizes on and around buffer sizes: a read that exactly fills the receive buffer's spare
+        // capacity, or ends exactly at a power of two, must not make the transport wait for more
+        let sizes: Vec<usize> = if thorough {
+            [512usize, 1024, 2048, 4096, 8192, 16384, 32768, 65536].iter().flat_map(|s| [s - 1, *s, s + 1]).collect()
+        } else {
+            vec![1023, 1024, 1025, 2048, 4096, 8192, 16384]
+        };
+        for &size in &sizes {
+            out.push(SegCase { xport, hello_cuts: vec![], replies: 1, reply_cuts: vec![], big: pad_for_reply_size(size), hello_size: Some(size), desc: format!("hello of exactly {size} bytes, then a reply of exactly {size} bytes, each in one unit") });
+            // two replies that together end at `size`, in one unit and cut between them
+            let first = size - r2;
+            if first > big_reply(1, 1).len() {
+                for cuts in [vec![], vec![first]] {
+                    out.push(SegCase { xport, hello_cuts: vec![], replies: 2, reply_cuts: cuts.clone(), big: pad_for_reply_size(first), hello_size: None, desc: format!("two replies ending at byte {size} of the reply stream, cuts {cuts:?}") });
                 }
             }
         }
         // byte-by-byte delivery of a delimiter
         let every: Vec<usize> = delimiter_zone(r1);
-        out.push(SegCase { xport, hello_cuts: delimiter_zone(hlen), replies: 2, reply_cuts: every, big: 0, desc: "hello and first reply delimiters delivered byte by byte".into() });
+        out.push(SegCase { xport, hello_cuts: delimiter_zone(hlen), replies: 2, reply_cuts: every, big: 0, hello_size: None, desc: "hello and first reply delimiters delivered byte by byte".into() });
     }
     out
 }
@@ -477,6 +615,11 @@ pub fn run_c06(report: &mut Report) {
             report.violation(&format!("C06:{class}:{:?}:{place}:{kind}", case.xport), &format!("{:?}: {}: {what}", case.xport, case.desc), json!({"transport": format!("{:?}", case.xport), "hello_cuts": case.hello_cuts, "replies": case.replies, "reply_cuts": case.reply_cuts, "case": case.desc}));
         }
     }
+    if stuck < 12 {
+        let n = run_deep_all(report, "C06", &mut servers);
+        evaluations += n;
+        nontrivial += n;
+    }
     report.set("evaluations", evaluations);
     report.set("distinct_nontrivial", nontrivial);
     report.set("cases_per_transport", json!(per_xport));
@@ -506,7 +649,7 @@ pub struct CloseCase {
 
 pub fn run_close(servers: &Servers, case: &CloseCase) -> Vec<(String, String)> {
     let mut problems = Vec::new();
-    let plan = ClientPlan { requests: case.requests, followup: true, idle_before: if case.idle { Duration::from_millis(150) } else { Duration::ZERO } };
+    let plan = ClientPlan { requests: case.requests, followup: true, idle_before: if case.idle { Duration::from_millis(150) } else { Duration::ZERO }, collect_after_all_sent: false };
     let zero_before = peers::ZERO_READS.load(std::sync::atomic::Ordering::SeqCst);
     let cpu_before = cpu_time();
     let t0 = Instant::now();
@@ -713,7 +856,7 @@ pub fn run_framing(report: &mut Report) -> u64 {
     for xport in [Xport::Tls, Xport::Local, Xport::Ssh] {
         for caps in [vec![CAP_BASE_1_0, crate::mem::CAP_BASE_1_1, CAP_JUNOS], vec![crate::mem::CAP_BASE_1_1, CAP_JUNOS], vec![CAP_BASE_1_0]] {
             n += 1;
-            let running = start(&servers, xport, ClientPlan { requests: 1, followup: false, idle_before: Duration::ZERO });
+            let running = start(&servers, xport, ClientPlan { requests: 1, followup: false, idle_before: Duration::ZERO, collect_after_all_sent: false });
             let Some(mut peer) = running.peer else { panic!("machinery failure: no peer on {xport:?}") };
             _ = peer.send_chunk(hello_msg(&caps, "77").as_bytes());
             let client_hello = peer.read_message(Duration::from_secs(3)).unwrap_or_default();
@@ -821,6 +964,12 @@ where
 /// prefix of reply 1; the future is dropped; request 2 is issued; the peer delivers the rest of reply 1
 /// and reply 2. Request 2 must complete with its own reply (C18), i.e. the transport must not lose or
 /// mis-frame bytes it had already taken when the reader was dropped.
+/// C05 on the real transports: deep pipelines (liveness with a responsive server, own reply for everyone).
+pub fn run_deep_c05(report: &mut Report) -> u64 {
+    let mut servers = Servers::start("C05");
+    run_deep_all(report, "C05", &mut servers)
+}
+
 pub fn run_abandoned_reader(report: &mut Report) -> u64 {
     let mut servers = Servers::start("C18");
     let mut n = 0u64;
